@@ -14,7 +14,10 @@ import (
 	"bytes"
 	"encoding/binary"
 	"fmt"
+	"hash/crc32"
 	"os"
+	"os/signal"
+	"syscall"
 	"path/filepath"
 	"sort"
 	"strings"
@@ -46,6 +49,7 @@ type shardT struct {
 	drained   bool // ReadNextTailBucket returned 0 in this incarnation
 	fresh     bool // no op on this shard since the restart
 	puts      bool // a put happened in this incarnation (so a writing file exists)
+	sizeOff   bool // a body write failed part way: bytes behind the accounted size may sit on disk until the next restart
 	ghost     bool // a waiting file vanished and the tail reader has not reached it yet: sizes may still include it
 	damaged   bool // bytes were flipped / files truncated / a known finding fired: only the byte-identity oracle stays on
 	erasedIDs []int64
@@ -75,6 +79,7 @@ func (s *shardT) onRestart() {
 	s.drained = false
 	s.fresh = true
 	s.ghost = false
+	s.sizeOff = false
 	s.puts = false
 	s.erasedIDs = nil
 }
@@ -224,7 +229,7 @@ func (w *world) obs(i int, what string) {
 
 func (w *world) stateOracle(i int, files []dfile, total, unsent int64) {
 	s := w.sh[i]
-	if s.damaged || s.ghost {
+	if s.damaged || s.ghost || s.sizeOff {
 		return
 	}
 	var sum int64
@@ -301,6 +306,42 @@ func (w *world) put(i int, tm uint32, data []byte, rot int) {
 	s.fresh = false
 	w.obs(i, fmt.Sprintf("put id=%d", id))
 	w.h.Stat("op.put", 1)
+}
+
+var castagnoli = crc32.MakeTable(crc32.Castagnoli)
+
+// putFail: PutBucket whose body write fails after k bytes (RLIMIT_FSIZE lowered around the call, SIGXFSZ ignored: WriteAt gets
+// EFBIG after a partial write, as on a full disk). Returns whether the put really failed.
+func (w *world) putFail(i int, tm uint32, data []byte, rot int, k int) bool {
+	s := w.sh[i]
+	st := agent.VerifC09GetState(w.d, i)
+	base := int64(0)
+	if st.Writing != "" && rot == 0 {
+		for _, f := range st.Files {
+			if f.Name == st.Writing {
+				base = f.Size
+			}
+		}
+	}
+	w.h.Op("putfail %d %d %s %d %d", i, tm, verifx.Hex(data), rot, k)
+	w.h.Flush()
+	var old syscall.Rlimit
+	must(syscall.Getrlimit(syscall.RLIMIT_FSIZE, &old))
+	lim := old
+	lim.Cur = uint64(base + consts.HeaderSize + int64(k))
+	must(syscall.Setrlimit(syscall.RLIMIT_FSIZE, &lim))
+	id, err := w.d.PutBucket(i, tm, data)
+	must(syscall.Setrlimit(syscall.RLIMIT_FSIZE, &old))
+	if err == nil { // the environment did not make the write fail: treat as an ordinary put (never expected)
+		w.h.Viol("harness-putfail-did-not-fail", "PutBucket succeeded under RLIMIT_FSIZE (id %d)", id)
+		return false
+	}
+	s.sizeOff = true
+	s.fresh = false
+	w.obs(i, "putfail id=0")
+	w.h.Stat("op.putfail", 1)
+	w.mark("failed-body-write")
+	return true
 }
 
 func classify(err error) string {
@@ -771,7 +812,7 @@ func runCase(h *verifx.H, root string, ci int, r *verifx.Rng) {
 					h.Viol("panic", "op panicked: %v", e)
 				}
 			}()
-			switch r.Pick(34, 16, 18, 14, 6, 5, 4, 3, 3) {
+			switch r.Pick(34, 16, 18, 14, 6, 5, 4, 3, 3, 3) {
 			case 0:
 				w.genPut(r, i)
 			case 1:
@@ -813,6 +854,32 @@ func runCase(h *verifx.H, root string, ci int, r *verifx.Rng) {
 					w.mark("torn-erase")
 					w.restart()
 					w.drainAll(true)
+				}
+			case 9: // the body write fails part way; the failed body CONTAINS the image of a stored second at offset L1,
+				// and the next put into the shard has a body of exactly L1 bytes (so leftovers, if any, would parse)
+				L1 := r.Range(0, 30)
+				payload := r.Bytes(r.Range(0, 8))
+				var img [20]byte
+				binary.LittleEndian.PutUint32(img[0:], consts.MagicGood)
+				binary.LittleEndian.PutUint32(img[4:], uint32(r.Range(1, 40)))
+				binary.LittleEndian.PutUint64(img[8:], uint64(len(payload)))
+				binary.LittleEndian.PutUint32(img[16:], crc32.Checksum(payload, castagnoli))
+				body := append(append(append(r.Bytes(L1), img[:]...), payload...), r.Bytes(r.Range(5, 30))...)
+				k := r.Range(L1+20+len(payload), len(body)-1)
+				rot := 0
+				if agent.VerifC09GetState(w.d, i).Writing != "" && r.Chance(20, 100) {
+					rot = 1
+					agent.VerifC09SetAge(w.d, i, consts.FileRotateInterval)
+				}
+				if w.putFail(i, genTime(r), body, rot, k) {
+					w.put(i, genTime(r), r.Bytes(L1), 0)
+					if r.Chance(30, 100) {
+						w.put(i, genTime(r), genData(r), 0)
+					}
+					if r.Chance(70, 100) {
+						w.restart()
+						w.drainAll(true)
+					}
 				}
 			case 8: // a waiting tail file vanishes (usually right after a restart, when everything is waiting)
 				if len(agent.VerifC09Waiting(w.d, i)) == 0 && r.Chance(70, 100) {
@@ -1067,6 +1134,7 @@ func main() {
 		fmt.Printf("end SH.Gen.C09\n")
 		return
 	}
+	signal.Ignore(syscall.SIGXFSZ) // a write beyond RLIMIT_FSIZE then fails with EFBIG instead of killing the harness
 	root := filepath.Join("/tmp/C09", fmt.Sprintf("run-%d", os.Getpid()))
 	must(os.MkdirAll(root, 0o777))
 	defer os.RemoveAll(root)
